@@ -10,8 +10,13 @@ import vlib
 FLAGS = dict(std="gnu++17", opt="-O1", extra=["-fext-numeric-literals", "-lquadmath", "-fsanitize=float-cast-overflow"])
 
 
-def build(defines=(), name="numbers_record"):
-    return vlib.build(name, "numbers_record.cpp", defines=list(defines), **FLAGS)
+def build(defines=(), name="numbers_record", arduino=False):
+    """arduino: compiled as an Arduino sketch would be (-include Arduino.h from the repository's test helpers):
+    ARDUINOJSON_ENABLE_PROGMEM=1, so the power-of-ten tables are read through the pgm_read_* polyfills."""
+    flags = dict(FLAGS)
+    if arduino:
+        flags["extra"] = FLAGS["extra"] + ["-include", "Arduino.h"]
+    return vlib.build(name, "numbers_record.cpp", defines=list(defines), **flags)
 
 
 def validate(chk, focus, trace, wd, label):
